@@ -107,6 +107,8 @@ type SimConn struct {
 }
 
 // connState outlives the conn: it is what the runtime's finalizer would act on.
+var statShortConnWrite = sim.RegStat("probe:net-conn-write-accepts-a-prefix")
+
 type connState struct {
 	fd        int
 	closed    bool
@@ -121,12 +123,17 @@ type connEntry struct {
 var registry []connEntry
 
 // ResetRegistry forgets every conn of previous runs.
-func ResetRegistry() { registry = nil; EOFWithData = false }
+func ResetRegistry() { registry = nil; EOFWithData = false; ShortWrites = false }
 
 // EOFWithData makes the stub conn behave at the end of the stream like tls.Conn (which sonic's websocket
 // client adapts for wss://) rather than like *net.TCPConn: when the end of the stream is already known, the
 // Read that returns the last bytes returns io.EOF together with them - as io.Reader allows. Set per run.
 var EOFWithData bool
+
+// ShortWrites lets Write accept only a prefix and return (n, nil). io.Writer forbids that and *net.TCPConn never
+// does it, but AsyncAdapter takes any io.ReadWriter and has a resume path for exactly this (a wrapper over a raw
+// non-blocking descriptor behaves so): with the option on, that path runs. Set per run.
+var ShortWrites bool
 
 // CollectGarbage runs the collector and then does what the runtime's
 // finalizer does for every conn that became unreachable without having been
@@ -273,6 +280,10 @@ func (c *SimConn) Read(p []byte) (int, error) {
 func (c *SimConn) Write(p []byte) (int, error) {
 	w := world()
 	k := w.K
+	if ShortWrites && len(p) > 1 && w.Chance(1, 3) {
+		p = p[:1+w.Choose(len(p)-1)]
+		w.Stat(statShortConnWrite)
+	}
 	done := 0
 	for done < len(p) {
 		if c.st.closed {
